@@ -256,7 +256,8 @@ class Device(object):
             if inj is not None and inj[0] == st['sent'] and not st.get('injected'):
               st['injected'] = True
               self.count('illegal_packet_injected')
-              self.send(inj[1], 1, 2, 'x' if inj[1] == 'OPEN' else '')
+              # (payloads with per-cent signs: they end up in error messages)
+              self.send(inj[1], 1, 2, 'x 100% %s' if inj[1] == 'OPEN' else ('50%d' if self.tape.chance(500, 'inj_pct') else ''))
           elif kind == 'clse' and not st['closed']:
             st['closed'] = True
             st['closed_by_device'] = True
